@@ -230,6 +230,11 @@ func genRename(prop string, seed uint64, run int, tier string) *Scenario {
 		// a consumer that is away for seconds at a time between two events
 		sc.Cfg.Consumers = []ConsumerCfg{{Mode: "both", Nap: 10 + g.r.Intn(30)}}
 	}
+	if !sc.Cfg.Lagfree && g.chance(0.12) {
+		// a kernel queue that overflows now and then: the moves after an
+		// overflow are correlated like any others (seed C11-h)
+		sc.Cfg.QueueLimit = 3 + g.r.Intn(12)
+	}
 	setup := []Op{{K: OpMkdir, P: "a"}, {K: OpMkdir, P: "b"}, {K: OpMkdir, P: "out"}}
 	nt := 1 + g.r.Intn(4)
 	if sc.Cfg.Lagfree {
@@ -668,6 +673,7 @@ func genRecurse(prop string, seed uint64, run int, tier string) *Scenario {
 	var ops []Op
 	removed := ""
 	id := 0
+	touched := map[string]bool{} // directories that (may) hold entries: not a target for an overwriting rename
 	for k := 4 + g.r.Intn(20); k > 0; k-- {
 		r := roots[g.r.Intn(len(roots))]
 		ds := dirs[r]
@@ -679,11 +685,13 @@ func genRecurse(prop string, seed uint64, run int, tier string) *Scenario {
 				n := d + "/" + names[g.r.Intn(len(names))]
 				if !contains(ds, n) {
 					dirs[r] = append(dirs[r], n)
+					touched[d] = true
 					ops = append(ops, Op{K: OpMkdir, P: n})
 				}
 			}
 		case 2, 3: // file operations at every depth
 			f := fmt.Sprintf("%s/file%d", d, id)
+			touched[d] = true
 			ops = append(ops, Op{K: OpCreate, P: f}, Op{K: OpWrite, P: f, N: 1})
 			if g.chance(0.5) {
 				ops = append(ops, Op{K: OpRename, P: f, P2: f + "r"}, Op{K: OpUnlink, P: f + "r"})
@@ -695,7 +703,40 @@ func genRecurse(prop string, seed uint64, run int, tier string) *Scenario {
 				if g.chance(0.3) {
 					to = fmt.Sprintf("%s/mv%d", parent, id)
 				}
-				if !contains(ds, to) {
+				if contains(ds, to) && to != d && !strings.HasPrefix(to, d+"/") && !strings.HasPrefix(d, to+"/") && !touched[to] && g.chance(0.7) {
+					// rename(2) onto an existing, empty, watched sibling directory: its name and
+					// its place in the tables pass to another watch (seed C19-h)
+					leaf := true
+					for _, x := range ds {
+						if strings.HasPrefix(x, to+"/") {
+							leaf = false
+						}
+					}
+					if leaf {
+						ops = append(ops, Op{K: OpRename, P: d, P2: to})
+						var nd []string
+						for _, x := range ds {
+							if x == to {
+								continue
+							}
+							if x == d {
+								nd = append(nd, to)
+							} else if strings.HasPrefix(x, d+"/") {
+								nd = append(nd, to+x[len(d):])
+								touched[to] = true
+							} else {
+								nd = append(nd, x)
+							}
+						}
+						touched[to] = touched[to] || touched[d]
+						dirs[r] = nd
+						if tworoots && removed == "" && g.chance(0.4) {
+							removed = r
+							ops = append(ops, Op{K: OpRemove, P: r, Rec: true})
+						}
+					}
+				} else if !contains(ds, to) {
+					touched[to] = touched[d]
 					if g.chance(0.25) {
 						// two renames in a row, the reader not yet having seen the first
 						mid := fmt.Sprintf("%s/mid%d", parent, id)
